@@ -200,6 +200,13 @@ func (e *env) readAndCheck(nc net.Conn, br *bufio.Reader, p *reqPlan, own map[ui
 		e.violate("c10:"+e.cls+":"+shape+"response-undecodable", fmt.Sprintf("%s client, connection %s: request %s: all %d body bytes are correct but decoding the response ended with %v\n%s", client, key, p, len(body), rerr, e.log.Slice(key, 20)))
 		return respBad, nil
 	}
+	if !p.CL && !p.Proto10 && p.ID%5 == 2 && p.Resp > 0 && len(resp.TransferEncoding) > 0 {
+		// the handler declared a trailer and set it behind the body
+		if got, want := resp.Trailer.Get("X-Sum"), strconv.FormatUint(uint64(p.ID), 10); got != want {
+			e.violate("c10:"+e.cls+":trailer-differs", fmt.Sprintf("%s client, connection %s: request %s: the handler set the declared trailer X-Sum to %s behind the body, the response carries %q (trailers %v)\n%s", client, key, p, want, got, resp.Trailer, e.log.Slice(key, 20)))
+			return respBad, nil
+		}
+	}
 	atomic.AddInt64(&e.exchanges, 1)
 	atomic.AddInt64(&e.bytesOK, int64(len(body)))
 	bump()
